@@ -97,3 +97,37 @@ func Harness_C01_length_field() {
 	}
 	verif_Cover("C01.len.alloc")
 }
+
+// Bodies whose length sits on a buffer-size boundary of the framing code (the 4 KiB pool
+// alignment, the 32 KiB read slice, 64 KiB): first and last bytes symbolic, the rest a fixed
+// pattern. Each such packet is followed by a marker packet, so a body that loses or gains a
+// byte at the boundary misaligns the marker.
+func Harness_C01_size_boundaries() {
+	ctx := context.Background()
+	sink := &verifSink{}
+	wp := NewStreamProcessor(nil, sink, ctx)
+	base := []int{4096, 8192, 32768, 65536}[verif_Choose(4)]
+	n := base - 6 + verif_Choose(8) // base-6 .. base+1
+	body := make([]byte, n)
+	for i := range body {
+		body[i] = byte(i*7 + 3)
+	}
+	body[0], body[1], body[n-2], body[n-1] = verif_Byte(), verif_Byte(), verif_Byte(), verif_Byte()
+	t := packet.Type(0x22)
+	_, err := wp.WritePacket(&packet.TransferPacket{PacketType: t, Payload: body}, false, 0)
+	verif_Assert("C01.size.write", err == nil)
+	marker := []byte{verif_Byte(), 0xA5}
+	_, err = wp.WritePacket(&packet.TransferPacket{PacketType: t, Payload: marker}, false, 0)
+	verif_Assert("C01.size.write_marker", err == nil)
+	verif_Assert("C01.size.wire_length", len(sink.Buf) == 5+n+5+2)
+
+	rd := &verifReader{Data: sink.Buf}
+	rp := NewStreamProcessor(rd, nil, ctx)
+	got, _, rerr := rp.ReadPacket()
+	verif_Assert("C01.size.read", rerr == nil && got != nil && len(got.Payload) == n)
+	verif_Assert("C01.size.body", verif_BytesEq(got.Payload, body))
+	got2, _, rerr2 := rp.ReadPacket()
+	verif_Assert("C01.size.read_marker", rerr2 == nil && got2 != nil && verif_BytesEq(got2.Payload, marker))
+	verif_Assert("C01.size.aligned", rd.Pos == len(rd.Data))
+	verif_Cover("C01.size.done")
+}
